@@ -8,7 +8,7 @@ from .. import dispatch_impl as D
 ID = 'C03'
 PROPS_FILE = 'ParamVerif/Props/C03.lean'
 DRIVER = 'Driver/Dispatch.lean'
-SOURCES = [('param/parameterized.py', 'Parameter.__set__'), ('param/parameterized.py', 'Parameters._call_watcher'),
+SOURCES = [('param/parameterized.py', 'Parameter.__set__'), ('param/parameterized.py', 'Parameter._trigger_event'), ('param/parameterized.py', 'Parameter._held_value'), ('param/parameterized.py', 'Parameters._call_watcher'),
            ('param/parameterized.py', 'Parameters._batch_call_watchers'), ('param/parameterized.py', 'Parameters._execute_watcher'),
            ('param/parameterized.py', 'Parameters._update'), ('param/parameterized.py', 'Parameters.trigger'),
            ('param/parameterized.py', 'Parameters._update_event_type'), ('param/parameterized.py', 'batch_call_watchers'),
